@@ -28,7 +28,7 @@ ENTRY = dict(
                    "qubit_locations [1,0]). c11_expectation_circuit states the hypothesis about the records read off the appended suffix itself "
                    "(c11_suffix_semantics: with gate ids interpreted as the H/SX matrices the suffix Z-measures rotation_of(letter)^dagger Z "
                    "rotation_of(letter) on qubit_locations[s] into register bit i) for injective qubit_locations; c11_process_outcome proves the "
-                   "split of the outcome word at the register width. The model is run against the implementation on ~2200 generated cases per run (every one also judged by the independent oracle: contract judge_accepts_clean_case) (groups are also re-read after "
+                   "split of the outcome word at the register width. The model is run against the implementation on ~2300 generated cases per run [incl. uncut circuits with resets pushed through generate_cutting_experiments: each subexperiment = preparation + reset clean-up passes + suffix is simulated by the harness, decoded by _process_outcome + lookup and compared with Tr(rho P) of the input circuit] (every one also judged by the independent oracle: contract judge_accepts_clean_case) (groups are also re-read after "
                    "every use as register / measurement circuit / _process_outcome and must still equal the model's immutable result), and the decoded expectation "
                    "values are compared with qiskit Statevector/DensityMatrix values on random entangled preparations (1-4 qubits, some ending in resets) using an independent "
                    "numpy simulator.",
